@@ -1,7 +1,7 @@
 import DendroModel.Model.C09
 open DendroModel DendroModel.C09
 
-/-- string field -> characters (`-` none is treated as empty) -/
+/-- string field -> characters (`-`, the protocol's None, is refused: no C09 field may be None) -/
 def dec (s : String) : Option Str :=
   match decodeStr s with
   | some (some x) => some x.toList
